@@ -106,6 +106,13 @@ class Fn:
             if any(t != "str" for _, t in items):
                 self.fail(e, "list of non-str")
             return "[" + "; ".join(c for c, _ in items) + "]", "list_str"
+        if isinstance(e, ast.IfExp):
+            c = self.test(e.test, env)
+            a, ta = self.expr(e.body, env)
+            b, tb = self.expr(e.orelse, env)
+            if ta != tb or ta not in ("str", "bool"):
+                self.fail(e, f"conditional expression on {ta},{tb}")
+            return f"(if {c} then {a} else {b})", ta
         if isinstance(e, ast.UnaryOp) and isinstance(e.op, ast.Not):
             return f"(negb {self.test(e.operand, env)})", "bool"
         if isinstance(e, ast.BoolOp):
@@ -311,8 +318,21 @@ class Fn:
             if s.orelse or not isinstance(s.target, ast.Name):
                 self.fail(s, "for form")
             it, ti = self.expr(s.iter, env)
-            if ti not in ("keys", "list_str"):
+            if ti not in ("keys", "list_str", "nodes"):
                 self.fail(s, "for over non-list")
+            elem_t = "node" if ti == "nodes" else "str"
+            # `for v in l: if c: return <bool constant>` (nothing else in the loop): the loop leaves the function at the first
+            # element that satisfies c, otherwise the rest of the block runs
+            if len(s.body) == 1 and isinstance(s.body[0], ast.If) and not s.body[0].orelse and len(s.body[0].body) == 1 \
+                    and isinstance(s.body[0].body[0], ast.Return) and isinstance(s.body[0].body[0].value, ast.Constant) \
+                    and isinstance(s.body[0].body[0].value.value, bool) and loop_k is None and self.ret == "bool":
+                env_b = dict(env)
+                env_b[s.target.id] = elem_t
+                c = self.test(s.body[0].test, env_b)
+                r = "true" if s.body[0].body[0].value.value else "false"
+                return f"if (existsb (fun {self.v(s.target.id)} => {c}) {it}) then ({r})\nelse ({nxt(env)})"
+            if ti == "nodes":
+                self.fail(s, "loop over nodes of another form than `if c: return <bool>`")
             carried = [n for n in self.assigned(s.body) if n in env]
             if not carried:
                 self.fail(s, "loop without carried variable")
@@ -333,7 +353,7 @@ class Fn:
         if args != set(env):
             raise Untranslatable(f"{self.src_name}: parameters changed: {sorted(args)} vs {sorted(env)}")
         coqty = {"str": "string", "keys": "list string", "list_str": "list string", "bool": "bool", "nat": "nat",
-                 "node": "string", "opt_node": "option string"}
+                 "node": "string", "opt_node": "option string", "nodes": "list string"}
         ps = " ".join(f"({self.v(p)} : {coqty[t]})" for p, t in self.params)
 
         def off_end(env2):
@@ -352,6 +372,10 @@ SPECS = {
         dict(file="base_interpreter.py", cls="BaseInterpreter", func="_is_descendant", coqname="is_descendant",
              params=[("node", "node"), ("ancestor", "opt_node")], ret="bool"),
     ],
+    "GenStateIn": [
+        dict(file="base_interpreter.py", cls="BaseInterpreter", func="_is_state_in", coqname="state_in_src", slice="slice_state_in",
+             params=[("target", "str"), ("active", "nodes")], ret="bool"),
+    ],
     "GenSpawn": [
         dict(file="models.py", cls=None, func="is_spawn_action", coqname="is_spawn_action",
              params=[("action_type", "str")], ret="bool"),
@@ -359,6 +383,36 @@ SPECS = {
              params=[("action_type", "str")], ret="str"),
     ],
 }
+
+
+# ---------------------------------------------------------------------------------------------------------------------
+# _is_state_in: the built-in `stateIn` guard.  The decoding of `params` (a mapping with `state` / `value`, or a bare string) stays
+# with the correspondence; what is translated is everything from the target string on: the empty / non-string target is False, a
+# leading '#' is dropped, and the guard holds iff some active state's id IS the target or ENDS with '.' + target.
+STATE_IN_PREFIX = ["params = self._resolve_params(guard.params, event)", "target = None",
+                   "if isinstance(params, dict):\n    target = params.get('state', params.get('value'))\nelif isinstance(params, str):\n    target = params"]
+
+
+def slice_state_in(fdef, src):
+    body = [st for st in fdef.body if not (isinstance(st, ast.Expr) and isinstance(st.value, ast.Constant))]
+    if [ast.unparse(st) for st in body[:3]] != STATE_IN_PREFIX:
+        raise Untranslatable(f"{src}: the decoding of the guard's params changed")
+    rest = body[3:]
+    if not rest or not isinstance(rest[0], ast.If) or ast.unparse(rest[0].test) != "not isinstance(target, str) or not target":
+        raise Untranslatable(f"{src}: expected `if not isinstance(target, str) or not target:` after the decoding")
+    rest[0] = ast.If(test=ast.parse("not target", mode="eval").body, body=rest[0].body, orelse=rest[0].orelse)
+
+    class Sub(ast.NodeTransformer):
+        def visit_Attribute(self, n):
+            if ast.unparse(n) == "self._active_state_nodes":
+                return ast.Name(id="active", ctx=ast.Load())
+            return self.generic_visit(n)
+    rest = [Sub().visit(st) for st in rest]
+    synth = ast.FunctionDef(name=fdef.name, args=ast.arguments(posonlyargs=[], args=[ast.arg(arg="self"), ast.arg(arg="target"), ast.arg(arg="active")],
+                                                                kwonlyargs=[], kw_defaults=[], defaults=[]),
+                            body=rest, decorator_list=[], lineno=fdef.lineno)
+    ast.fix_missing_locations(synth)
+    return synth
 
 
 def find_func(module, cls, func):
@@ -387,6 +441,8 @@ def translate_unit(unit, src_root=None):
         fdef = find_func(module, spec["cls"], spec["func"])
         seg = ast.get_source_segment(text, fdef) or ""
         digest = hashlib.sha256(seg.encode()).hexdigest()[:16]
+        if spec.get("slice"):
+            fdef = globals()[spec["slice"]](fdef, f"{spec['file']}:{spec['func']}")
         fn = Fn(module, fdef, spec["params"], spec["ret"], spec["coqname"], f"{spec['file']}:{spec['func']}")
         out.append(f"(* {spec['file']} :: {spec['func']}  sha256[:16]={digest} *)")
         out.append(fn.translate())
